@@ -96,6 +96,7 @@ type Obs struct {
 	NResumedExits int
 	SaverTypes    map[string]bool
 	TouchKinds    map[string]bool
+	FlowEvents    map[int][]string // per flow: the events logged by its runs, without timestamps and step uuids
 }
 
 func (o *Obs) summary() any {
@@ -251,7 +252,10 @@ func findNode(c *Case, fi int, uuid string) *Node {
 	return nil
 }
 
-func execute(c *Case) (obs *Obs, err error) {
+func execute(c *Case) (*Obs, error) { return executeWithout(c, "") }
+
+// executeWithout runs the case with one asset ("kind:id") additionally left out of the assets (deletion probe)
+func executeWithout(c *Case, without string) (obs *Obs, err error) {
 	defer func() {
 		// a panic of the real code is not C20's subject (C04/C16 look for those); the case is counted as skipped
 		if p := recover(); p != nil {
@@ -265,7 +269,7 @@ func execute(c *Case) (obs *Obs, err error) {
 	defer dates.SetNowFunc(time.Now)
 	defer random.SetGenerator(random.DefaultGenerator)
 
-	src, err := static.NewSource(assetsJSON(c, ""))
+	src, err := static.NewSource(assetsJSON(c, without))
 	if err != nil {
 		return nil, fmt.Errorf("assets-unreadable")
 	}
@@ -274,7 +278,7 @@ func execute(c *Case) (obs *Obs, err error) {
 		return nil, fmt.Errorf("assets-unreadable")
 	}
 
-	obs = &Obs{Inspections: map[int]*ObsInspection{}, SaverTypes: map[string]bool{}, TouchKinds: map[string]bool{}}
+	obs = &Obs{Inspections: map[int]*ObsInspection{}, SaverTypes: map[string]bool{}, TouchKinds: map[string]bool{}, FlowEvents: map[int][]string{}}
 
 	// ---- the real inspection of every flow
 	for fi, f := range c.Flows {
@@ -462,6 +466,7 @@ func collectSprint(c *Case, obs *Obs, session flows.Session, sp flows.Sprint) {
 		fi := flowIndex(c, string(run.FlowReference().UUID))
 		typ, m := eventMap(e)
 		node := string(step.NodeUUID())
+		obs.FlowEvents[fi] = append(obs.FlowEvents[fi], node+" "+canonEvent(m))
 		if typ == "run_result_changed" {
 			name, _ := m["name"].(string)
 			cat, _ := m["category"].(string)
@@ -680,5 +685,43 @@ func saverOf(n *Node, name, cat string) string {
 	if len(cands) > 0 {
 		return cands[0]
 	}
-	return "unknown"
+	// no action or router of the node is configured with that name: name the result-saving types on the node
+	var types []string
+	for _, a := range n.Actions {
+		if a.Behav == "set_run_result" || a.Behav == "saver" {
+			types = append(types, a.Type)
+		}
+	}
+	if n.Router != nil {
+		types = append(types, "router:"+n.Router.Type)
+	}
+	sort.Strings(types)
+	return "under-a-name-not-configured-on-node-with:" + strings.Join(types, "+")
+}
+
+var volatileKeys = map[string]bool{"created_on": true, "step_uuid": true, "modified_on": true, "expires_on": true, "sent_on": true, "elapsed_ms": true}
+
+func stripVolatile(v any) any {
+	switch t := v.(type) {
+	case map[string]any:
+		out := map[string]any{}
+		for k, x := range t {
+			if !volatileKeys[k] {
+				out[k] = stripVolatile(x)
+			}
+		}
+		return out
+	case []any:
+		out := make([]any, len(t))
+		for i, x := range t {
+			out[i] = stripVolatile(x)
+		}
+		return out
+	}
+	return v
+}
+
+func canonEvent(m map[string]any) string {
+	b, _ := json.Marshal(stripVolatile(m))
+	return string(b)
 }
